@@ -34,6 +34,8 @@ type Interp struct {
 	Tmpl *Interp // template interpreter holding initialised globals (concrete), or nil
 	memo map[any]any
 	MonitorOn bool
+	AmbientOn bool
+	NowAllowed bool
 	consts map[*ssa.Const]Value
 	natives map[*Obj]any
 	onces   map[*Obj]bool
@@ -498,8 +500,19 @@ func (in *Interp) callFunction(fn *ssa.Function, args []Value) Value {
 	return r
 }
 
+// ambientPkgs: calling into these packages is exercising ambient authority (C19).
+var ambientPkgs = map[string]bool{"os": true, "syscall": true, "os/user": true, "os/exec": true, "net": true, "io/fs": true, "os/signal": true,
+	"net/http": true, "internal/poll": true, "internal/syscall/unix": true, "path/filepath.EvalSymlinks": true}
+
 func (in *Interp) callFunctionBody(fn *ssa.Function, args []Value) Value {
 	name := fn.String()
+	if in.AmbientOn && fn.Pkg != nil && ambientPkgs[fn.Pkg.Pkg.Path()] {
+		m := in.Ctx.Model()
+		if m != nil {
+			panic(&Violation{Kind: "ambient", Msg: "call into ambient-authority package: " + name + " from " + in.where(), Model: m,
+				Replay: in.Ctx.ReplayValues(m), Labels: append([]string(nil), in.Labels...), Where: in.where()})
+		}
+	}
 	if st, ok := in.Stubs[name]; ok {
 		return st(in, args)
 	}
